@@ -16,7 +16,7 @@ CLAIMS = {
                 'handler + parser + retry loop + production service wiring under random timers and database outcomes are validated as Batcher '
                 'behaviours by TLC (Trace_Batcher.tla) with every invariant evaluated at every step.',
         'note': 'ClickHouse is replaced by fakech at the IChClient seam; sizes abstracted to row counts; schedule replay uses one worker per '
-                'service (several workers are covered by trace validation); bounded model: 2 requests x 2 services, 2 attempts.',
+                'service (several workers are covered by trace validation); bounded model: 2 requests x 2 services, 2 attempts. Round 4: the acknowledgement check covers every log ingest protocol (Elasticsearch doc/bulk, Cloudflare, Datadog logs, Influx) and has a round in which the database refuses every INSERT.',
         'technique': 'TLA+ model checking (TLC) + model-based schedule replay + TLC trace validation',
         'design_ref': '5/C01',
     },
@@ -25,7 +25,7 @@ CLAIMS = {
         'text': 'Batcher.tla at batch grain: BatchMatchesResults, PortionMatchesResults, NoRowTwice checked exhaustively; every proto.Input '
                 'reaching the fake ClickHouse client in replays and recorded runs is decoded column by column: equal row counts, every row\'s '
                 'fields carry one row id, and the block equals the rows of exactly the promises swapped out with it (DoCall event in Trace_Batcher).',
-        'note': 'Row identity is embedded by the drivers in every field; ragged blocks are rejected by fakech as ClickHouse would.',
+        'note': 'Row identity is embedded by the drivers in every field; ragged blocks are rejected by fakech as ClickHouse would. Round 4: ColumnFill.tla (one insert service at column grain, HandleScope call/service; the service scope must be refuted) with the sub-service contention phase of cmd/c02blocks.',
         'technique': 'TLA+ model checking (TLC) + block decoding in schedule replay and TLC trace validation',
         'design_ref': '5/C02',
     },
@@ -57,7 +57,7 @@ CLAIMS = {
                 'in order), SeriesAnnounced, ShapeOK and NoPanic over all body shapes within bounds. Every enumerated body shape is concretised for 11 protocol '
                 'variants (Loki JSON values/entries int/RFC3339/metric, Loki protobuf, Datadog logs/metrics, Influx logs/metrics, OTLP logs, remote write; random key order) '
                 'and parsed by the REAL exported parsers; rows are compared field by field (exact ns, text, float bits, type, per-stream fingerprint, series label documents).',
-        'note': 'thresholds scaled (3 points = 1000, 4 units = 1 MiB); benign label names here (hostile labels: C04); bodies above 1 MiB are capped per protocol in the quick tier.',
+        'note': 'thresholds scaled (3 points = 1000, 4 units = 1 MiB); benign label names here (hostile labels: C04); bodies above 1 MiB are capped per protocol in the quick tier. Round 4: label-state classes ttl/mix of Chunker.tla with row fingerprints LS(i,j), the LeakLabels family TLC must refute, reference fingerprint of the label set sent alone.',
         'technique': 'TLA+ model checking (TLC) + exhaustive replay of TLC-enumerated body shapes into the real parsers',
         'design_ref': '5/C03',
     },
@@ -70,7 +70,7 @@ CLAIMS = {
                 'every acknowledged sample are compared with the model. Labels.tla validates, by TLC, the trace of (label set, permutation, protocol) -> fingerprint/document '
                 'recorded from the real parsers: fingerprint is a function of the sanitised set, no collision in the universe, document decodes (encoding/json and '
                 'chsql JSONExtractKeysAndValues) to the set.',
-        'note': 'hash injectivity only on the enumerated universe; writer and reader share the process zone in the replay; failed INSERT = retries exhausted. No open finding: the cache deviations (set before insert, key without the sample type) are repaired by eb377cd / f754ca5 and stay in the models as mutations TLC must refute; the end-to-end composition Qryn.tla (extra check X02) re-checks AckedReadable for all four signals.',
+        'note': 'hash injectivity only on the enumerated universe; writer and reader share the process zone in the replay; failed INSERT = retries exhausted. No open finding: the cache deviations (set before insert, key without the sample type) are repaired by eb377cd / f754ca5 and stay in the models as mutations TLC must refute; the end-to-end composition Qryn.tla (extra check X02) re-checks AckedReadable for all four signals. Round 4: pushes with an unparsable tail (SeriesIndex.tla Tails), request shapes and Sample events with SampleIndexed in Labels.tla.',
         'technique': 'TLA+ model checking (TLC) + replay of TLC histories through writer->store->reader + TLC trace validation of recorded fingerprints',
         'design_ref': '5/C04',
     },
@@ -93,7 +93,7 @@ CLAIMS = {
                 '(real middlewares, common/writer/reader/view route tables, recording back-ends) and against the REAL BINARY in MODE=reader over HTTP with a TCP listener counting '
                 'ClickHouse connections (zero accepts for unauthenticated requests); both request logs are validated by TLC (Trace_Auth.tla).',
         'note': 'in-process wiring replayed from main.go by AST; writer routes only in process (main() needs a native ClickHouse); view routes via stand-ins; a header "Basic <valid b64><junk>" '
-                'is accepted because the base64 error is ignored (needs the credentials, not counted as a bypass).',
+                'is accepted because the base64 error is ignored (needs the credentials, not counted as a bypass). Round 4: third binding - the stand-alone reader (reader.Init(cfg, nil)) in a child process per configuration.',
         'technique': 'TLA+ model checking (TLC) with constants generated from the code + replay into the in-process router and the real binary + TLC trace validation',
         'design_ref': '5/C20',
     },
@@ -118,7 +118,7 @@ CLAIMS = {
                 '(thorough 6) x all batch splits incl. empty batches x all fingerprint patterns incl. fingerprint 0. Every enumerated input is replayed into the real '
                 'QueryRange/QueryInstant/Tail (batches delivered through the planner plugin seam), label/series services, Tempo and Prometheus controllers; the strictly parsed body is '
                 'compared with the rows (exact timestamps, ParseFloat(text)==value bitwise, hostile strings) and its token string with the spec\'s.',
-        'note': 'full-stack seeded cases go through fakesql + the real getter batching; invalid UTF-8 passed through by jsoniter is counted, not judged; the websocket framing of the live tail is covered by the extra check X01.',
+        'note': 'full-stack seeded cases go through fakesql + the real getter batching; invalid UTF-8 passed through by jsoniter is counted, not judged; the websocket framing of the live tail is covered by the extra check X01. Round 4: batch-list writer (TraceQL search) over every distribution of traces over batches; attribute values of every scalar kind must parse back exactly.',
         'technique': 'TLA+/TLC exhaustive enumeration with case export + replay into the real writers + token-string conformance',
         'design_ref': '5/C15',
     },
@@ -129,7 +129,7 @@ CLAIMS = {
                 'agrees with s) on 8 body families (<= 3 spans, <= 2 resources x <= 2 scopes, all id classes, both framings, timestamp kinds, all orders of the optional keys, all subsets of 10 attribute '
                 'shapes) outside named candidate classes. Every finished behaviour is concretised and run through the REAL /v1/traces, /tempo/spans, /api/v2/spans, /tempo/api/push routes, insert services, '
                 'store and /api/traces/{id} (JSON and protobuf); rows and read-back are compared with the statement (verdict) and with the transcription (conformance, 0 deviations).',
-        'note': '15 findings repaired by five fix: commits (NDJSON decoder state/payload/long lines, service name vs key order, short parent id on read, OTLP list attributes); one open finding: peer.service replaces service.name on read (writer/reader priority lists, upstream semantics).',
+        'note': '15 findings repaired by five fix: commits (NDJSON decoder state/payload/long lines, service name vs key order, short parent id on read, OTLP list attributes); one open finding: peer.service replaces service.name on read (writer/reader priority lists, upstream semantics). Round 4: odd-digit id spellings (LowBlocks, spell, OddFields; family zspell).',
         'technique': 'TLA+ model checking (TLC) + replay of every exported case through the real writer routes, store and reader routes',
         'design_ref': '5/C06',
     },
@@ -139,7 +139,7 @@ CLAIMS = {
                 'coercion, extraction, drop, window/type/order/limit). TLC enumerates the bounded grammar (<= 2 matchers over 4 ops plus the 9-matcher selector, <= 2 line filters, label-filter trees of depth '
                 '<= 2, json / json with params / regexp, drop, window edges, type, limit, direction) on every small database; each case is concretised with hostile strings and decoys, stored (real writer '
                 'series rows, real MVs) and queried through the REAL /loki/api/v1/query_range over chsql; the multiset of (labels, timestamp, line) and the order under a limit must equal Eval.',
-        'note': 'meaning of SQL given by chsql; fragments M, L, P exhaustive, product sampled by seed; 8 finding families repaired by fix: commits; open: matchers on a label the stream lacks (label-index design), `| json != "x"` parsed as a label filter named json (grammar).',
+        'note': 'meaning of SQL given by chsql; fragments M, L, P exhaustive, product sampled by seed; 8 finding families repaired by fix: commits; open: matchers on a label the stream lacks (label-index design), `| json != "x"` parsed as a label filter named json (grammar). Round 4: whole-value regex matching (ExtVals, exhaustive fragment A, every equivalent spelling of a value regex).',
         'technique': 'TLA+ definition vs mechanism spec, TLC case enumeration, replay through the real query_range over the reference interpreter',
         'design_ref': '5/C07',
     },
@@ -149,7 +149,7 @@ CLAIMS = {
                 'by/without in prefix and suffix position, comparison, topk/bottomk, step <,=,> range and the metrics_15s shortcut; LogQLPlan transcribes the SQL planners and the Go post-processors '
                 '(StepFix, FixPeriod, ZeroEater). TLC-enumerated cases are replayed through the REAL query_range with step; every observed (series, time, value) must be allowed by the definition and every '
                 'mandatory point present.',
-        'note': 'dyadic values for exact floats; quantile/stddev/stdvar/absent_over_time excluded; 13 finding families repaired by fix: commits; open: absent-label matchers (shared with C07), step>range instants (StepFix/FixPeriod interplay), zero-valued points dropped (0 used as no-value).',
+        'note': 'dyadic values for exact floats; quantile/stddev/stdvar/absent_over_time excluded; 13 finding families repaired by fix: commits; open: absent-label matchers (shared with C07), step>range instants (StepFix/FixPeriod interplay), zero-valued points dropped (0 used as no-value). Round 4: results longer than one 100-row getter slice (fragment B, MultiSlice) on all three planning paths.',
         'technique': 'TLA+ definition vs mechanism spec, TLC case enumeration, replay through the real query_range over the reference interpreter',
         'design_ref': '5/C08',
     },
@@ -169,7 +169,7 @@ CLAIMS = {
                 '(thorough 5) that the rendered text is exactly one literal decoding to the string. The spec transducers equal the real code on every exported string, and every string of length <= 3 (plus a '
                 'seeded sample) is placed in 167 string positions of the REAL LogQL, Loki, PromQL, TraceQL, Tempo and Pyroscope routes: the SQL handed to the session has the token structure of a harmless '
                 'string and carries the string only in literals decoding to it.',
-        'note': 'oracle: chsql lexer and LIKE rules; the doLike escaping defect (10 signatures) is repaired by fix 5714936: TLC now proves LikeValue on Escape.tla; the alphabet has 20 classes incl. the backtick (raw-string quote of the query languages), which found f8502d3; no open finding.',
+        'note': 'oracle: chsql lexer and LIKE rules; the doLike escaping defect (10 signatures) is repaired by fix 5714936: TLC now proves LikeValue on Escape.tla; the alphabet has 20 classes incl. the backtick (raw-string quote of the query languages), which found f8502d3; no open finding. Round 4: regex matcher positions accept every admissible rendering by pattern class (RegexPlain, MatcherValues, MatcherStructure) and judge only that the value stays inside one literal.',
         'technique': 'TLA+/TLC exhaustive check of the escaping transducers + conformance with the code + replay into the real routes with token-level comparison',
         'design_ref': '5/C10',
     },
@@ -178,7 +178,7 @@ CLAIMS = {
         'text': 'TraceQLSem.tla defines what a TraceQL query describes (Eval) and, planner by planner, the plan clickhouse_transpiler builds (PlanEval with named deviation rules for the code as written); TLC checks '
                 'on 58k (thorough 1.09M) query x database cases that the plan as designed conforms to the definition. The cases are concretised (hostile strings, numbers, times), stored directly or through the '
                 'real Zipkin/OTLP routes and queried through the REAL /api/search and /api/v2/search/tags|tag/x/values; every generated statement must run on chsql and the answer must be one Eval accepts.',
-        'note': 'all 8 first-pass findings (+1 uncovered behind them) repaired by fix: commits; the evaluator (portioned execution of expensive requests) is part of the spec and the binding; one open finding: a portion that answers `limit` traces moves the window start of the next portion to the oldest kept trace (unsound optimisation, upstream decision).',
+        'note': 'all 8 first-pass findings (+1 uncovered behind them) repaired by fix: commits; the evaluator (portioned execution of expensive requests) is part of the spec and the binding; one open finding: a portion that answers `limit` traces moves the window start of the next portion to the oldest kept trace (unsound optimisation, upstream decision). Round 4: sub-second phase ph of span timestamps, NextFrom models the portion loop as written.',
         'technique': 'TLA+ model checking (TLC exhaustive layers + TLC-evaluated seeded sample) + replay through the real reader and writer routes over the reference interpreter',
         'design_ref': '5/C11',
     },
@@ -188,7 +188,7 @@ CLAIMS = {
                 'check each descriptor over all windows, row timestamps, row types and reader/writer zones within 3 days at 15 min resolution for Leak (admitted outside the window / other signal) and Miss '
                 '(in-window row rejected by a date or type bound, given the writer\'s date rule). Every candidate witness is replayed on the REAL endpoint with boundary rows, comparing rows offered/admitted per '
                 'scan (chsql) and the HTTP response.',
-        'note': 'all 17 signatures repaired by six fix: commits (UTC day bounds, upper bounds without the lower-bound margin, Tempo tag index written under the UTC day, exact LogQL log window); the driver observes the writer date rule; sub-second windows on every family (TsMiss), which found and repaired 8eaaa87 (numeric time= cut to seconds); the tail is driven by the extra check X01.',
+        'note': 'all 17 signatures repaired by six fix: commits (UTC day bounds, upper bounds without the lower-bound margin, Tempo tag index written under the UTC day, exact LogQL log window); the driver observes the writer date rule; sub-second windows on every family (TsMiss), which found and repaired 8eaaa87 (numeric time= cut to seconds); the tail is driven by the extra check X01. Round 4: the step filter of sparse range queries is part of the descriptor (ph; PhaseOK / PhaseMiss / InRangeWindow).',
         'technique': 'TLA+/TLC with constants generated from the executed SQL + counterexample replay + scan-level observation',
         'design_ref': '5/C13',
     },
@@ -197,7 +197,7 @@ CLAIMS = {
         'text': 'Replan.tla models planner objects with mutable fields (Mutates GENERATED from a reflective field probe of the real planner objects); TLC checks over all interleavings of 2 plan objects x 3 executions '
                 'x 36 query classes that re-execution and fresh translation mean the same. 108 TLC cases and a 700-query LogQL/TraceQL/profile corpus are replayed into the real planners: one plan executed 3x with '
                 'advancing bounds vs a fresh plan, compared by text, chsql tokens, then meaning on a writer-filled store; determinism within and across processes; portions of complex TraceQL requests; the real Tail for 3 ticks; the calls are validated as a Replan behaviour by TLC.',
-        'note': 'all 4 findings repaired by three fix: commits (LineFilterPlanner.Val, ByWithoutPlanner.LabelsCache, AttrConditionPlanner.AggregatedAttr); no open finding.',
+        'note': 'all 4 findings repaired by three fix: commits (LineFilterPlanner.Val, ByWithoutPlanner.LabelsCache, AttrConditionPlanner.AggregatedAttr); no open finding. Round 4: ReplanHist.tla (request neighbour pairs, memo designs, lemmas Adequate / SoundSilent), every translation compared with the same request translated first-thing in a process of its own; stream-label filter + parser-stage query class (found the defect repaired by 2266ee6).',
         'technique': 'TLA+/TLC model checking + TLC case generation + trace validation + differential re-execution with a reflective field probe',
         'design_ref': '5/C14',
     },
@@ -207,7 +207,7 @@ CLAIMS = {
                 '(2-3 functions, depth <= 3-4 incl. recursion, shared frames and empty stacks, <= 3-4 samples, 1-2 sample types, <= 3 profiles): mechanism = definition, conservation per node and type, root sums, '
                 'merge commutative/associative and equal to the build of the bag union, layout nests. Every TLC state is concretised to a real pprof, pushed through the REAL multipart and binary parsers and the '
                 'REAL reader MergeTrie/BFS in all profile orders and row orders and compared; a seeded sample of reader outputs is validated by TLC.',
-        'note': 'node identity = hash(parent, function) with the level clamp as a spec constant (KeyInjective), stacks on both sides of the clamp, stretching to real depths proved to commute on the small cases; open finding: a sample with an empty stack is counted in values_agg but contributes to no root total (format decision).',
+        'note': 'node identity = hash(parent, function) with the level clamp as a spec constant (KeyInjective), stacks on both sides of the clamp, stretching to real depths proved to commute on the small cases; open finding: a sample with an empty stack is counted in values_agg but contributes to no root total (format decision). Round 4: pprof payload merge (PMergeMech / PMergeDef, PayloadMergeEqDef / Sum / Tree) through the real ProfileMergeV2 in every order, locations without / with sparse / with several mappings.',
         'technique': 'TLA+ model checking (TLC) + exhaustive model-based case replay + TLC validation of recorded observations',
         'design_ref': '5/C16',
     },
@@ -217,7 +217,7 @@ CLAIMS = {
                 'label-index bitmask query against matcher semantics for all DBs <= 3 series x matcher sets <= 3. TLC exports the contract table and every case; the driver replays all call sequences on the REAL '
                 'iterator and all cases through the REAL CLokiQuerier.Select, the Prometheus series/label-values routes and the Pyroscope routes over chsql, and compares the vendored Prometheus engine over the '
                 'real qryn Queryable with the same engine over a real Prometheus TSDB.',
-        'note': '23 signatures repaired by nine fix: commits (Seek contract, anchored regex matchers, UInt64 matcher bits, duplicate label sets, inclusive range start, window placement, subquery instant selector, timestamp()); 10 open: matchers on an absent label (label-index design, 8), step-bucketed/subquery pre-aggregation needs the evaluation grid the hints do not carry (2).',
+        'note': '23 signatures repaired by nine fix: commits (Seek contract, anchored regex matchers, UInt64 matcher bits, duplicate label sets, inclusive range start, window placement, subquery instant selector, timestamp()); 10 open: matchers on an absent label (label-index design, 8), step-bucketed/subquery pre-aggregation needs the evaluation grid the hints do not carry (2). Round 4: SelectDays.tla (day and process-zone dimension of Select); the downsample path C17 excludes is the extra check X08.',
         'technique': 'TLA+ model checking (TLC) + exhaustive replay through the real cursor/selectors + differential PromQL against a Prometheus TSDB',
         'design_ref': '5/C17',
     },
